@@ -121,16 +121,16 @@ func isStaleErrorAllowed(code int) bool {
 //
 // splitHostPort separates host and port. If the port is not valid, it returns
 // the entire input as host, and it doesn't check the validity of the host.
-// Unlike net.SplitHostPort, but per RFC 3986, it requires ports to be numeric.
+// Unlike net.SplitHostPort, but per RFC 3986, it requires ports to be numeric,
+// and it does not strip the square brackets of IPv6 literals.
 func splitHostPort(hostPort string) (host, port string) {
 	host = hostPort
 	colon := strings.LastIndexByte(host, ':')
 	if colon != -1 && validOptionalPort(host[colon:]) {
 		host, port = host[:colon], host[colon+1:]
 	}
-	if strings.HasPrefix(host, "[") && strings.HasSuffix(host, "]") {
-		host = host[1 : len(host)-1]
-	}
+	// The brackets of an IP-literal are kept: they are what distinguishes
+	// "[::1]:8080" (port 8080) from the different host "[::1:8080]".
 	return
 }
 
